@@ -575,3 +575,9 @@ def scenario_recipe(draw, profile=None, max_lanelets=6, max_obstacles=5, max_pps
             "scenario_id": draw(st.one_of(st.none(), scenario_id_recipe())), "meta": meta,
             "location": draw(location_recipe()), "lanelets": net["lanelets"], "signs": net["signs"],
             "lights": net["lights"], "intersections": net["intersections"], "obstacles": obstacles, "pps": pps}
+
+
+def occupancies_simple():
+    """Set-based prediction recipe with exact, consecutive time steps starting at 1."""
+    return st.lists(gg.simple_shape(), min_size=1, max_size=4).map(
+        lambda shapes: {"k": "set", "t0": 1, "occ": [{"t": 1 + i, "shape": s} for i, s in enumerate(shapes)]})
